@@ -612,9 +612,16 @@ class C14(Prop):
             if len(left) < 3:
                 left = [left[0], left[0] + 1.0, left[0] + 2.5]
             eff = list(left)
+            if 0.0 not in left[1:-1] and left[0] < 0.0 < left[-1] and rng.random() < 0.5:
+                left = sorted(set(left + [0.0]))            # mean / from-to classes normally cross zero
+                eff = list(left)
             for j in range(1, len(left) - 1):          # the right bound of class j-1 is one ulp beside the left bound of class j
                 if left[j] != 0.0 and rng.random() < 0.7:
                     eff[j] = ulp(left[j], rng.random() < 0.5)
+                elif left[j] == 0.0 and rng.random() < 0.8:
+                    # an edge at zero computed as left + width comes out as rounding noise of the neighbours' size
+                    # (np.arange(-0.3, 0.3, 0.1)[3] + 0.1 = 5.55e-17): /repo 125ac37 judges it relative to the class widths
+                    eff[j] = rng.choice([1.0, -1.0]) * 2.0 ** -54 * max(abs(left[j - 1]), abs(left[j + 1]))
             bins = {"t": "iv2", "e": eff, "left": left[:-1]}
         elif bt == "ivbad":
             e = [x for x in sorted(set(gen_edges(rng, rows, which == "rm")))]
